@@ -561,7 +561,12 @@ def _parse_node_for_arg(_required, action, choices, node, typ):
     """
     if isinstance(node, Tuple):
         maybe_choices = tuple(
-            get_value(elt) for elt in node.elts if isinstance(elt, (Constant, Str))
+            get_value(elt)
+            for elt in node.elts
+            if isinstance(elt, (Constant, Str))
+            # a signed number, e.g. the -1 of `Literal[-1, 0, 1]`
+            or isinstance(elt, UnaryOp)
+            and isinstance(elt.operand, (Constant, Num))
         )
         if len(maybe_choices) == len(node.elts):
             choices = maybe_choices
